@@ -115,7 +115,7 @@ def run(ctx):
     if not th:
         rest_opts = [[], FOREIGN + BLOCK_MIDDLE, BLOCK_FIRST, BLOCK_LAST, FOREIGN + BLOCKS]
     if th:
-        data_opts = [s for s in subsets(DATA) if len(s) in (0, 1, 2, len(DATA) - 1, len(DATA))] + [[e for e in DATA if rng.random() < 0.5] for _ in range(12)]
+        data_opts = [s for s in subsets(DATA) if len(s) in (0, 1, len(DATA) - 1, len(DATA))] + [[e for e in DATA if rng.random() < 0.5] for _ in range(14)]
     else:
         data_opts = [s for s in subsets(DATA) if len(s) in (0, 1, len(DATA))] + [[e for e in DATA if rng.random() < 0.5] for _ in range(3)]
     trees = []
@@ -145,8 +145,8 @@ MCModeFiles == {%s}
 ====
 ''' % (',\n  '.join(tt), ', '.join(modes))
     mc = mcmod(tree_tla)
-    # the (directory, command) pairs that are replayed: every fourth (quick) / third (thorough) directory of the family, chosen by the seed
-    step = ctx.pick(4, 3)
+    # the (directory, command) pairs that are replayed: every fourth directory of the family, chosen by the seed
+    step = 4
     off = ctx.seed % step
     mc_pairs = mcmod(tree_tla[off::step])
 
@@ -206,7 +206,7 @@ MCModeFiles == {%s}
     ctx.sample({'kind': 'behaviour', 'cmds': scenarios[npairs]['cmds'], 'modeFile': scenarios[npairs]['init']['modeFile']})
 
     # ---- 4. the real binary ------------------------------------------------------------------
-    recs, rc, out = ctx.run_harness('./internal/verifh/c19', 'TestVerifC19', inp={'scenarios': scenarios, 'random': ctx.pick(900, 12000), 'today': TODAY}, timeout=2400)
+    recs, rc, out = ctx.run_harness('./internal/verifh/c19', 'TestVerifC19', inp={'scenarios': scenarios, 'random': ctx.pick(900, 8000), 'today': TODAY}, timeout=2400)
     if not [x for x in recs if x.get('kind') == 'summary']:
         raise Infra('C19 harness wrote no summary:\n' + out[-3000:])
     for x in recs:
